@@ -34,6 +34,13 @@ def gen_cases(ctx):
         keep = sorted(rng.sample(range(n), rng.randint(1, max(1, n - 1)))) if n > 1 else [0]
         out.append({"k": "indep", "env": env, "keep": keep, "shift": rng.choice([1, 3, 7]) * si.DT, "seed": rng.randrange(10**6),
                     "hashseeds": (not ctx.quick) and rng.random() < 0.2})
+    # a fixed scenario: the first particle leaves the grid at once and a new one is released at the next step, so the
+    # per-particle arrays keep their length while the survivor (exactly on a rho level) changes slot
+    N = 6
+    out.append({"k": "indep", "keep": [1, 2], "shift": 3 * si.DT, "seed": 424242, "hashseeds": False,
+                "env": {"N": N, "p": 1, "life": -1, "utab": [[0.25, 0.5, 2.5] for _ in range(N)],
+                        "ttab": [[float(3 * n + 1), float(3 * n + 2), float(3 * n + 3)] for n in range(N)],
+                        "rows": [[0, 17.0, 2], [0, 5.0, 1], [1, 6.0, 0], [3, 7.5, 1]]}})
     # whole set-ups (Model/Setup.v): irregular frames in several files, release table with times; the run and
     # the run of the set-up shifted by d seconds (whole steps and not), both against the model compiled in Coq
     for q in range(6 if ctx.quick else 60):
